@@ -320,6 +320,20 @@ class JFile:
                     for k in TRAIT_METHODS[trait]:
                         self.trait_extra[k] = (f"impl {trait} also defines {', '.join(extra)}: the trait's other operations are no longer "
                                                f"the defaults built from `{k}` that the model assumes")
+        # ---- conditionally compiled functions: `#[cfg(..)]` / `#[cfg_attr(..)]` directly above a `fn`
+        self.cfg_fns = {}
+        lines = open(path).read().split("\n")
+        for i, l in enumerate(lines):
+            m = re.match(r"^\s*(?:pub(?:\([^)]*\))?\s+)?(?:const\s+|unsafe\s+)*fn\s+(\w+)", l)
+            if not m:
+                continue
+            j = i - 1
+            while j >= 0 and (lines[j].strip().startswith("#[") or lines[j].strip().startswith("//") or not lines[j].strip()):
+                if re.match(r"^\s*#\[\s*cfg", lines[j]):
+                    self.cfg_fns[m.group(1)] = lines[j].strip()
+                if not lines[j].strip():
+                    break
+                j -= 1
         # ---- timer errors
         self.errors_ok = False
         if error_path:
@@ -1322,6 +1336,8 @@ class TmUnit:
             raise Unsupported("; ".join(self.jf.problems))
         if name in self.jf.trait_extra:
             raise Unsupported(self.jf.trait_extra[name])
+        if name in self.jf.cfg_fns:
+            raise Unsupported(f"{name} is conditionally compiled ({self.jf.cfg_fns[name]})")
         if key in self.unprepared:
             raise Unsupported(self.unprepared[key])
         if key not in self.prepared:
